@@ -78,6 +78,10 @@ def run_and_judge(out, cases, want, mine, crash_is_mine=False, label=""):
             else:
                 out.skip("crashed (judged by C04)")
             continue
+        if "C05.unparseable" in v["clauses"] and not mine("C05.unparseable"):
+            # the text is not even a ShExC schema: nothing this property says can be read off it, and that is a verdict here too
+            # (a silent skip would hide whatever made it unreadable)
+            out.violation("%s.unparseable" % out.prop, c, label)
         out.judge_clauses(v["clauses"], c, mine, detail=label)
         out.sample({"case": c["id"], "triples": len(c["graph"]), "graph_head": c["graph"][:4],
                     "cfg": {k: c["cfg"][k] for k in ("mode", "thr", "inverse", "allCompliant", "keepLess", "cap")},
